@@ -99,7 +99,6 @@ var _ *tls.Config // used by //@ func headers
 
 //@ func (ce *commandEncoder) Literal(size int64) (result io.WriteCloser)
 //@   props C18:callsite,post,pre@call
-//@   requires ce != nil && ce.client != nil && ce.Encoder != nil
 //@   callsite Encoder.Literal(e *imapwire.Encoder, sz int64, sync *imapwire.ContinuationRequest) requires sz == size && (sync == nil ==> size <= 4096 && imap.HasLiteralMinusSpec(ce.client.caps))
 
 // beginCommand configures the wire encoder from the negotiated capabilities.
@@ -118,5 +117,4 @@ var _ *imapwire.Encoder
 //
 //@ func writeSearchKey(enc *imapwire.Encoder, criteria *imap.SearchCriteria)
 //@   props C18:callsite
-//@   requires enc != nil && criteria != nil
 //@   callsite Encoder.Quoted(e *imapwire.Encoder, q string) requires imapwire.ValidQuotedSpec(e.QuotedUTF8, q)
